@@ -12,6 +12,9 @@ func init() {
 func genC03(r *PRNG, tier string) *Scenario {
 	big := r.Chance(1, 12) || (tier == "thorough" && r.Chance(1, 4))
 	scn := &Scenario{Prop: "C03", Class: "conformant", Seed: r.Uint64() >> 1, Sched: genSched(r)}
+	if big && (scn.Sched.ReadMode == "one" || scn.Sched.ReadMode == "small") {
+		scn.Sched.ReadMode = "uniform" // megabyte messages one byte at a time only overflow the logs
+	}
 	realIsServer := r.Bool()
 	comp := r.Chance(1, 2)
 	end := &EndCfg{ReadBuf: genBuf(r), WriteBuf: genWBuf(r, 125), Compression: comp}
